@@ -425,6 +425,20 @@ impl MintBuilder {
         false
     }
 
+    pub(crate) fn get_required_signers(&self) -> Ed25519KeyHashes {
+        let mut set = Ed25519KeyHashes::new();
+        for (_, script_mint) in &self.mints {
+            let signers = match script_mint {
+                ScriptMint::Native(native_mints) => native_mints.script.required_signers(),
+                ScriptMint::Plutus(plutus_mints) => plutus_mints.script.get_required_signers(),
+            };
+            if let Some(signers) = signers {
+                set.extend_move(signers);
+            }
+        }
+        set
+    }
+
     pub(crate) fn get_used_plutus_lang_versions(&self) -> BTreeSet<Language> {
         let mut used_langs = BTreeSet::new();
         for (_, script_mint) in &self.mints {
